@@ -12,7 +12,7 @@ sys.path.insert(0, os.path.join(ROOT, "vlib"))
 import driver
 
 DEFAULT = dict(Node="a,b,c", InitVoters="a,b,c", Value="x,y", MaxTerm="2", MaxLog="4", MaxTimer="5", MaxAE="2",
-               MaxClient="1", MaxCrash="0", MaxHalf="0", MaxSnap="0", SnapSize="1", AsyncKinds="", MaxNet="0",
+               MaxClient="1", MaxCrash="0", MaxHalf="0", MaxSnap="0", SnapSize="1", MaxRead="0", AsyncKinds="", MaxNet="0",
                invariants="ElectionSafety,LogMatching,NoViolation,CommittedDurable", mode="bfs", timeout="600", depth="60", workers="8")
 
 
@@ -39,7 +39,7 @@ def main():
     setv = lambda v: "{" + ", ".join(x for x in v.split(",") if x) + "}"
     strset = lambda v: "{" + ", ".join('"%s"' % x for x in v.split(",") if x) + "}"
     cfg = "CONSTANTS\n  Node = %s\n  InitVoters = %s\n  Value = %s\n  Nil = Nil\n" % (setv(opt["Node"]), setv(opt["InitVoters"]), setv(opt["Value"]))
-    for k in ("MaxTerm", "MaxLog", "MaxTimer", "MaxAE", "MaxClient", "MaxCrash", "MaxHalf", "MaxNet", "MaxSnap", "SnapSize"):
+    for k in ("MaxTerm", "MaxLog", "MaxTimer", "MaxAE", "MaxClient", "MaxCrash", "MaxHalf", "MaxNet", "MaxSnap", "SnapSize", "MaxRead"):
         cfg += "  %s = %s\n" % (k, opt[k])
     cfg += "  AsyncKinds = %s\n  W = %s\n  Gen = TRUE\n" % (strset(opt["AsyncKinds"]), strset(w))
     cfg += "SPECIFICATION Spec\nINVARIANTS %s\nCHECK_DEADLOCK FALSE\n" % " ".join(opt["invariants"].split(","))
@@ -65,12 +65,29 @@ def main():
         print("%s: TLC finished without counterexample (%.0fs): %s" % (w, time.time() - t0, (re.findall(r"\d+ states generated.*", out) or [""])[-1]))
         return 3
     cex = json.load(open(os.path.join(d, "cex.json")))["counterexample"]["action"]
+    def msg(m):
+        """a message of `net' as the replay driver needs it: request kind, endpoints of the REQUEST, round"""
+        if m["kind"] in ("rvq", "aeq"):
+            return {"kind": m["kind"][:2], "phase": "req", "from": m["from"], "to": m["to"], "round": m["round"],
+                    "pre": bool(m.get("pre", False)), "term": m["term"]}
+        q = m["req"]
+        return {"kind": m["kind"][:2], "phase": "resp", "from": q["from"], "to": q["to"], "round": m["round"],
+                "pre": bool(q.get("pre", False)), "term": q["term"]}
+
+    def key(m):
+        return json.dumps(m, sort_keys=True)
+
     steps = []
     for pre, act, post in cex:
         ctx = act["context"]
-        n = ctx.get("n") or ctx.get("m", {}).get("to", "")
-        steps.append({"a": act["name"], "n": ctx.get("n", ""), "p": ctx.get("p", ctx.get("n", "")), "v": ctx.get("v", ""),
-                      "post": {k: proj(v) for k, v in post[1]["ns"].items()}})
+        st = {"a": act["name"], "n": ctx.get("n", ""), "p": ctx.get("p", ctx.get("n", "")), "v": ctx.get("v", ""),
+              "post": {k: proj(v) for k, v in post[1]["ns"].items()}}
+        if "m" in ctx:
+            st["m"] = msg(ctx["m"])
+            st["n"], st["p"] = st["m"]["from"], st["m"]["to"]
+        before = {key(m) for m in pre[1].get("net", [])}
+        st["spawn"] = [msg(m) for m in post[1].get("net", []) if key(m) not in before and m["kind"] in ("rvq", "aeq")]
+        steps.append(st)
     voters = [x for x in opt["InitVoters"].split(",") if x]
     sc = {"name": "atk-" + w, "family": family, "attack": w, "violates": m.group(1), "voters": voters, "controlled": True, "auto": False,
           "heal": True, "heal_et": 60, "spec": steps,
